@@ -205,8 +205,8 @@ def fixture(job):
 
 # ---------------------------------------------------------------------------------------------------------------
 # wave 3: PROCESS-LEVEL SEQUENCES on one parsed Domain whose Action objects are reused and edited in place through the
-# library's own API between groundings.  After every edit the action's CURRENT schema is re-dumped with the library's
-# exporter (DomainExporter.write_action: the text a learner would write out); the model and the spec ground THAT text.
+# library's own API between groundings.  After every edit the action's CURRENT schema is re-dumped (dump_action below: the
+# harness's own walk of the live object); the model and the spec ground THAT text.
 def _mk_pred(domain, action, name, args, pos):
     from pddl_plus_parser.models import Predicate as P
     sig = {}
@@ -290,11 +290,62 @@ def apply_edit(domain, action, ed):
     raise ValueError("unknown edit %r" % kind)
 
 
+# The re-dump: the harness's OWN walk of the live Action object (not the library's exporter, which prints the numeric conditions of a
+# connective through a set -- equal texts once -- and sorts / drops things: C08's subject).  Every operand of every connective is
+# printed, once per object in the library's set, nested as it is stored; numbers as repr(float).
+def dump_tree(node):
+    if node.is_leaf:
+        if isinstance(node.value, PDDLFunction):
+            return "(%s)" % " ".join([node.value.name] + list(node.value.signature.keys()))
+        return repr(float(node.value))
+    return "(%s %s %s)" % (node.value, dump_tree(node.children[0]), dump_tree(node.children[1]))
+
+
+def dump_lit(p):
+    txt = "(%s)" % " ".join([p.name] + list(p.signature.keys()))
+    return txt if p.is_positive else "(not %s)" % txt
+
+
+def dump_cond(c):
+    items = []
+    for o in c.operands:
+        if isinstance(o, UniversalPrecondition):
+            items.append("(forall (%s - %s) %s)" % (o.quantified_parameter, o.quantified_type.name, dump_cond(o)))
+        elif isinstance(o, Precondition):
+            items.append(dump_cond(o))
+        elif isinstance(o, Predicate):
+            items.append(dump_lit(o))
+        elif isinstance(o, NumericalExpressionTree):
+            items.append(dump_tree(o.root))
+        else:
+            raise RuntimeError("unexpected operand %r" % type(o))
+    items += ["(= %s %s)" % (a, b) for a, b in c.equality_preconditions]
+    items += ["(not (= %s %s))" % (a, b) for a, b in c.inequality_preconditions]
+    return "(%s %s)" % (c.binary_operator, " ".join(items))
+
+
+def dump_group(discrete, numeric):
+    return "(and %s)" % " ".join([dump_lit(x) for x in discrete] + [dump_tree(x.root) for x in numeric])
+
+
+def dump_action(action):
+    params = " ".join("%s - %s" % (n, t.name) for n, t in action.signature.items())
+    effs = [dump_lit(x) for x in action.discrete_effects] + [dump_tree(x.root) for x in action.numeric_effects]
+    for ce in action.conditional_effects:
+        effs.append("(when %s %s)" % (dump_cond(ce.antecedents.root), dump_group(ce.discrete_effects, ce.numeric_effects)))
+    for ue in action.universal_effects:
+        for ce in ue.conditional_effects:
+            effs.append("(forall (%s - %s) (when %s %s))" % (ue.quantified_parameter, ue.quantified_type.name,
+                                                             dump_cond(ce.antecedents.root),
+                                                             dump_group(ce.discrete_effects, ce.numeric_effects)))
+    return "(:action %s :parameters (%s) :precondition %s :effect (and %s))" % (
+        action.name, params, dump_cond(action.preconditions.root), " ".join(effs))
+
+
 def sequence(job):
     """job: domain_text, header_text (the domain text up to and without its actions and its last parenthesis), problem_text,
     states [problem_text] (for 'app' steps), steps [{kind: ground|app|edit, ...}].
     Returns epochs [{text, nums, vocab}] (the domain as exported after each edit; epoch 0 = as parsed) and one result per step."""
-    from pddl_plus_parser.exporters import DomainExporter
     from pddl_plus_parser.models import State
     out = {}
     dpath = write_tmp(job["domain_text"], ".pddl")
@@ -312,10 +363,9 @@ def sequence(job):
         except Exception as e:  # noqa
             out["problem_raised"] = exc(e)
             return out
-        exporter = DomainExporter()
 
         def snapshot():
-            text = job["header_text"] + "\n" + "\n".join(exporter.write_action(a) for a in domain.actions.values()) + ")"
+            text = job["header_text"] + "\n" + "\n".join(dump_action(a) for a in domain.actions.values()) + ")"
             return {"text": text, "nums": number_table(text), "vocab": vocab(domain)}
         epochs = [snapshot()]
         kept = {}
